@@ -19,7 +19,7 @@ RULE = ("Cases: generated tree x piece length x options (private/source/comment)
         "last piece, non-power-of-two piece count, size == P). Distinct = distinct canonical case JSON.")
 ASSUMPTIONS = [
     "differential only: the absolute oracle for the hashes is C02/C03; vf/ref/bencode.py decodes the files",
-    "the assembler is driven through the same keyword interface the CLI uses (meta_version as the string the CLI passes)",
+    "the assembler is driven through the same keyword interface the CLI uses; meta_version is passed as the string the CLI passes or as the int its docstring documents",
 ]
 BUDGET = {
     "quick": {"examples": 350, "workers": 8, "time_cap": 70},
@@ -47,7 +47,9 @@ def strategy(tier):
                 d = draw(st.sampled_from(dirs))
                 t["dirlinks"] = [{"path": [draw(st.sampled_from(["current", "zz-link", "0link"]))], "target": d}]
         return {"tree": t, "P": P, "opts": opts, "assembler_route": draw(st.sampled_from(["lib", "cli"])),
-                "again": draw(common.second_act()), "warm": draw(common.warmup())}
+                "again": draw(common.second_act()), "warm": draw(common.warmup()),
+                # the library keyword meta_version as the string the CLI passes, or as the int the docstring documents
+                "int_version": draw(st.sampled_from([False, False, True]))}
     return case()
 
 
@@ -105,7 +107,7 @@ def _round(scr, root, tree, P, case, classes, tag):
                     extra += ["--comment", case["opts"]["comment"]]
                 metas[creator] = common.create(creator, "cli", root, out, P, extra_cli=extra)
             else:
-                metas[creator] = common.create(creator, "lib", root, out, P, extra_kw=case["opts"])
+                metas[creator] = common.create(creator, "lib", root, out, P, extra_kw=dict(case["opts"], _int_version=bool(case.get("int_version"))))
     except Exception as e:
         return Outcome(Violation("C10:exception:%s" % type(e).__name__, "create raised %r" % (e,)), True)
     # the interactive front end (prompts answered by the harness) must produce the same metafile as the CLI creator
